@@ -260,7 +260,8 @@ def parse_tree(tree: Dict[str, Any], core: bool = False) -> Dict[str, Any]:
     finally:
         os.chdir(cwd)
         shutil.rmtree(base, ignore_errors=True)
-        logging.Logger.manager.loggerDict.pop(f"pyrtma.parser ({P.Parser._instance_count})", None)
+        from . import priv as _PV          # forget the per-instance loggers (named after a private counter)
+        _PV.drop_parser_loggers()
 
 
 # --------------------------------------------------------------------------------------------------
